@@ -88,6 +88,11 @@ func eval(e ast.Expr, env env, iota int64) (int64, bool) {
 			return a - b, true
 		case token.MUL:
 			return a * b, true
+		case token.QUO:
+			if b == 0 {
+				return 0, false
+			}
+			return a / b, true
 		case token.SHL:
 			return a << uint(b), true
 		case token.OR:
@@ -224,6 +229,10 @@ func main() {
 		os.Exit(2)
 	}
 	repo, out := os.Args[1], os.Args[2]
+	modelPath := ""
+	if len(os.Args) > 3 {
+		modelPath = os.Args[3]
+	}
 	var b strings.Builder
 	w := func(f string, a ...any) { fmt.Fprintf(&b, f, a...) }
 	w("(* GENERATED by translators/mgmt from the Go sources under verification - do not edit.\n")
@@ -231,7 +240,9 @@ func main() {
 	w("   these names, so a changed status code, default, prefix, verb list or bound is re-checked by every theorem. *)\n")
 	w("From Coq Require Import List NArith ZArith.\nImport ListNotations.\nOpen Scope N_scope.\n\n")
 
-	env := env{}
+	// constants of the Go standard library that the handlers compare against (64-bit platform)
+	env := env{"MaxInt": 1<<63 - 1, "MaxInt64": 1<<63 - 1, "MaxInt32": 1<<31 - 1, "MaxUint32": 1<<32 - 1,
+		"Nanosecond": 1, "Microsecond": 1000, "Millisecond": 1000000, "Second": 1000000000}
 	// ---- named constants of other packages
 	encFiles := parseDir(filepath.Join(repo, "std/encoding"))
 	consts(encFiles, env)
@@ -271,15 +282,6 @@ func main() {
 	need("k_pers_permanent", "PersistencyPermanent", "fw/face/persistency.go")
 	need("k_cs_flag_enable_admit", "CsFlagEnableAdmit", "fw/mgmt/helpers.go")
 	need("k_cs_flag_enable_serve", "CsFlagEnableServe", "fw/mgmt/helpers.go")
-	// minimum MTU accepted by face management: 0 when the source has no such constant
-	if v, ok := env["MinMTU"]; ok {
-		w("Definition k_min_mtu : N := %d.   (* MinMTU *)\n", v)
-	} else if v, ok := env["minMTU"]; ok {
-		w("Definition k_min_mtu : N := %d.   (* minMTU *)\n", v)
-	} else {
-		w("Definition k_min_mtu : N := 0.   (* no MinMTU constant in the source: no lower bound *)\n")
-	}
-
 	// ---- computeHeaderOverhead: base + conditional terms
 	w("\n(* ---- fw/face/ndnlp-link-service.go computeHeaderOverhead: terms added to lpPacketOverhead, by option ---- *)\n")
 	var hdrFrag, hdrIfi, hdrOther int64
@@ -470,8 +472,19 @@ func main() {
 				return true
 			})
 			s := src.String()
-			if strings.Contains(s, "nonLocalPrefix") && strings.Contains(s, "IsPrefix") && strings.Contains(s, "enableLocalhopManagement") {
-				runGuarded = true
+			_ = s
+			// exactly: !<local test> && !(enableLocalhopManagement && <x>.nonLocalPrefix.IsPrefix(..))
+			if top, ok := ifs.Cond.(*ast.BinaryExpr); ok && top.Op == token.LAND {
+				if un, ok := top.Y.(*ast.UnaryExpr); ok && un.Op == token.NOT {
+					if par, ok := un.X.(*ast.ParenExpr); ok {
+						if and, ok := par.X.(*ast.BinaryExpr); ok && and.Op == token.LAND {
+							if id, ok := and.X.(*ast.Ident); ok && id.Name == "enableLocalhopManagement" &&
+								strings.HasSuffix(exprString(and.Y), "nonLocalPrefix.IsPrefix(..)") {
+								runGuarded = true
+							}
+						}
+					}
+				}
 			}
 			// len(interest.NameV) < len(m.localPrefix)+2
 			if be, ok := ifs.Cond.(*ast.BinaryExpr); ok && be.Op == token.LSS {
@@ -638,6 +651,88 @@ func main() {
 	defaults("RIBModule_register", "origin", "cost", "flags")
 	defaults("RIBModule_unregister", "origin")
 	defaults("FIBModule_add", "cost")
+
+	// ---- range checks on parameters: `*params.<Field> <op> <constant>` in an if condition of the handler
+	w("\n(* ---- parameter range checks found in the handlers (18446744073709551616 = 2^64 / 0 = no such check) ---- *)\n")
+	bound := func(fn, field string, op token.Token, coq string, none string) {
+		fd := funcs[fn]
+		found := ""
+		if fd != nil {
+			ast.Inspect(fd, func(n ast.Node) bool {
+				ifs, ok := n.(*ast.IfStmt)
+				if !ok {
+					return true
+				}
+				ast.Inspect(ifs.Cond, func(m ast.Node) bool {
+					be, ok := m.(*ast.BinaryExpr)
+					if !ok || be.Op != op || exprString(be.X) != "*params."+field {
+						return true
+					}
+					if v, ok := eval(be.Y, env, 0); ok {
+						// the body must refuse: it has to contain a return or clear areParamsValid
+						refuses := false
+						ast.Inspect(ifs.Body, func(b ast.Node) bool {
+							switch x := b.(type) {
+							case *ast.ReturnStmt:
+								refuses = true
+							case *ast.AssignStmt:
+								if len(x.Lhs) == 1 && exprString(x.Lhs[0]) == "areParamsValid" && exprString(x.Rhs[0]) == "false" {
+									refuses = true
+								}
+							}
+							return true
+						})
+						if refuses && found == "" {
+							found = strconv.FormatInt(v, 10)
+						}
+					}
+					return true
+				})
+				return true
+			})
+		}
+		if found == "" {
+			found = none
+		}
+		w("Definition %s : N := %s.   (* %s: *params.%s %s .. *)\n", coq, found, fn, field, op.String())
+	}
+	bound("FaceModule_update", "Mtu", token.LSS, "k_FaceModule_update_min_mtu", "0")
+	bound("FaceModule_create", "Mtu", token.LSS, "k_FaceModule_create_min_mtu", "0")
+	bound("ContentStoreModule_config", "Capacity", token.GTR, "k_ContentStoreModule_config_max_capacity", "18446744073709551616")
+	bound("RIBModule_register", "ExpirationPeriod", token.GTR, "k_RIBModule_register_max_expiration", "18446744073709551616")
+
+	// ---- status constants the model refers to but the source no longer has: placeholders, listed in k_missing_status
+	if modelPath != "" {
+		src, err := os.ReadFile(modelPath)
+		if err != nil {
+			fail("cannot read model %s: %v", modelPath, err)
+		}
+		defined := map[string]bool{}
+		for _, l := range strings.Split(b.String(), "\n") {
+			f := strings.Fields(l)
+			if len(f) > 1 && f[0] == "Definition" {
+				defined[f[1]] = true
+			}
+		}
+		var missing []string
+		seen := map[string]bool{}
+		for _, tok := range strings.FieldsFunc(string(src), func(r rune) bool {
+			return !(r == '_' || (r >= 'a' && r <= 'z') || (r >= 'A' && r <= 'Z') || (r >= '0' && r <= '9'))
+		}) {
+			if strings.Contains(tok, "_st_") && !defined[tok] && !seen[tok] {
+				seen[tok] = true
+				missing = append(missing, tok)
+			}
+		}
+		sort.Strings(missing)
+		w("\n(* ---- status constants used by the model that the source does not (any longer) have ---- *)\n")
+		var ms []string
+		for _, m := range missing {
+			w("Definition %s : N := 0.   (* MISSING in the source *)\n", m)
+			ms = append(ms, coqBytes(m))
+		}
+		w("Definition k_missing_status : list (list N) := [%s].\n", strings.Join(ms, "; "))
+	}
 
 	if len(problems) > 0 {
 		for _, p := range problems {
